@@ -115,6 +115,7 @@ m("c14-handshake-holds-lock", "src/common/h11c.rs", "    let mut socket = ctx.wr
 m("c14-socks-handshake-under-registry-lock", "src/listeners/socks.rs", "        let request = SocksRequest::read_from(&mut socket, auth_server).await?;", "        let request = {\n            let _guard = state.contexts.alive.lock().await;\n            SocksRequest::read_from(&mut socket, auth_server).await?\n        };", ["C14"])
 m("c14-accept-inline-handshake", "src/listeners/http.rs", "                    tokio::spawn(async move {\n                        let res = match this.create_context(state, source, socket).await {", "                    let _inline = (async move {\n                        let res = match this.create_context(state, source, socket).await {", [])
 # ---- C15
+m("c14-quic-handshake-in-accept-loop", "src/listeners/quic.rs", "            tokio::spawn(async move {\n                match conn.await.context(\"connection\") {\n                    Ok(conn) => this.client_thread(conn, source, state, queue).await,\n                    Err(e) => {\n                        warn!(\"{}, Accept error: {}: cause: {:?}\", this.name, e, e.cause);\n                    }\n                }\n            });\n", "            match conn.await.context(\"connection\") {\n                Ok(conn) => {\n                    tokio::spawn(this.client_thread(conn, source, state, queue));\n                }\n                Err(e) => {\n                    warn!(\"{}, Accept error: {}: cause: {:?}\", this.name, e, e.cause);\n                }\n            }\n", ["C14"])
 m("c15-assign-before-resolve", "src/main.rs", "        let connectors = &self.connectors;\n        rules.iter_mut().try_for_each(move |r| {", "        *self.rules.write().await = rules.clone();\n        let connectors = &self.connectors;\n        rules.iter_mut().try_for_each(move |r| {", ["C15"])
 m("c15-clear-then-push", "src/main.rs", "        *self.rules.write().await = rules;\n        Ok(())", "        self.rules.write().await.clear();\n        for r in rules {\n            tokio::task::yield_now().await;\n            self.rules.write().await.push(r);\n        }\n        Ok(())", ["C15"])
 m("c15-unknown-target-is-deny", "src/main.rs", "                Err(err_msg(format!(\"target not found: {}\", r.target_name())))", "                Ok(())", ["C15"])
